@@ -453,7 +453,11 @@ func checkOne(c Case, e expect, pat string, st *core.Stats) error {
 			return fmt.Errorf("%s; expected an error because %s is trapped", desc, core.FlagStr(e.cond))
 		}
 	} else if o.Err != nil {
-		if c.Ctx.P == 0 || arith.NearLimit(c.Case, nil) {
+		// With Precision 0 Quo and QuoInteger refuse to divide (documented), but only where a
+		// division is actually needed: a NaN or infinite operand and a zero divisor are decided
+		// by the special-value rules in every context.
+		p0Divides := (c.Op == "quo" || c.Op == "quointeger") && c.X.Form == 0 && c.Y.Form == 0 && !c.Y.IsZero()
+		if (c.Ctx.P == 0 && (p0Divides || (c.Op != "quo" && c.Op != "quointeger"))) || arith.NearLimit(c.Case, nil) {
 			return nil
 		}
 		return fmt.Errorf("%s; unexpected error (specification gives %s)", desc, e.kind)
